@@ -274,7 +274,7 @@ def plant_cache_siblings(case, rng):
 
 
 def run_hist_prop(prop, tier, salt, n_quick, n_thorough, families=gen.SCENARIOS, per_family=(25, 600),
-                  prof=gen.DEFAULT_PROFILE, extra_cases=None, unit_tie=None, faults=None, **kw):
+                  prof=gen.DEFAULT_PROFILE, extra_cases=None, unit_tie=None, faults=None, _after=None, **kw):
     rep = core.Report(prop, tier)
     gate = core.proof_gate(THEOREMS[prop], tier)
     ds = measure()
@@ -296,6 +296,8 @@ def run_hist_prop(prop, tier, salt, n_quick, n_thorough, families=gen.SCENARIOS,
         if prop in ('C03', 'C12', 'C02') and not str(c.get('seed', '')).startswith('corpus:') and i % 3 == 0:
             plant_cache_siblings(c, random.Random(core.seed() * 131 + i))
     explore(prop, tier, rep, cases)
+    if _after:
+        _after(rep)
     if unit_problems and not rep.violations:
         # a unit-level model and the code disagree and the histories exhibit no failing input
         q = unit_problems[0]
@@ -387,10 +389,17 @@ def check_C06(tier):
 
 def check_C07(tier):
     from . import pathcheck
-    return run_hist_prop('C07', tier, 7, 700, 30000, families=[gen.scen_dups, gen.scen_identity], per_family=(120, 2500), prof=RICH_ARGS,
+    return run_hist_prop_then_threads('C07', tier, 7, 700, 30000, families=[gen.scen_dups, gen.scen_identity], per_family=(120, 2500), prof=RICH_ARGS,
                          p_fail=0.05, p_clean=0.0,
                          unit_tie=('FB.PathNorm.abspath (abspath_clean, abspath_idempotent, loop_skip, loop_detour) describes '
                                    'FileBuilder._sanitize_filename', pathcheck.run))
+
+
+def run_hist_prop_then_threads(prop, tier, *a, **kw):
+    """C07: the identity of a key must not depend on its spelling when two threads race for it either"""
+    kw['_after'] = lambda rep: explore_threads(prop, tier, rep, ['dup_sub_json_equal', 'dup_sub_json_equal_cached'],
+                                               budget(tier, 2, 3), budget(tier, 300, 5000))
+    return run_hist_prop(prop, tier, *a, **kw)
 
 
 def check_C08(tier):
@@ -401,7 +410,8 @@ def check_C08(tier):
     cases += random_cases(tier, 500, 30000, 8, prof=RICH_ARGS, dirsize=ds, p_fail=0.1)
     explore('C08', tier, rep, cases)
     # the thread clause: two threads issuing the same key, every schedule up to the preemption bound
-    explore_threads('C08', tier, rep, ['dup_file', 'dup_sub', 'dup_sub_cached'], budget(tier, 2, 3), budget(tier, 600, 8000))
+    explore_threads('C08', tier, rep, ['dup_file', 'dup_sub', 'dup_sub_cached', 'dup_sub_json_equal', 'dup_sub_json_equal_cached'],
+                    budget(tier, 2, 3), budget(tier, 500, 8000))
     return finish('C08', rep, gate)
 
 
@@ -666,7 +676,7 @@ def explore_threads(prop, tier, rep, names, bound, cap):
         classify, classes, proto = None, set(), None
         if name == 'shared_new_dir':
             classify, proto = threadcheck.classify_p2, ('P2', 2)
-        elif name in ('dup_file', 'dup_sub', 'dup_sub_cached'):
+        elif name in ('dup_file', 'dup_sub', 'dup_sub_cached', 'dup_sub_json_equal', 'dup_sub_json_equal_cached'):
             classify, proto = threadcheck.classify_p1, ('P1', 2)
         n, fails, e, maxdec, nseq = threadcheck.explore_scenario(name, S[name], bound, cap, rng, classify, classes)
         if proto is not None:
@@ -715,7 +725,7 @@ def explore_threads(prop, tier, rep, names, bound, cap):
 
 C09_SCENARIOS = ['shared_new_dir', 'shared_new_dir_deep', 'sibling_dirs', 'one_fails', 'both_fail', 'fail_alone_in_dir',
                  'stale_dir', 'stale_dir_queries', 'queries_vs_build', 'subbuilds', 'three_threads', 'dup_file', 'dup_sub',
-                 'dup_sub_cached']
+                 'dup_sub_cached', 'dup_sub_json_equal', 'rebuild_two_then_fail', 'build_two_then_fail']
 
 
 def check_C09(tier):
